@@ -325,3 +325,87 @@ def run_decisions(ctx, exe, dcases, judge):
     if verdicts is None:
         return None
     return [(d, v, o, x) for (d, v, o), x in zip(kept, verdicts)]
+
+
+# ------------------------------------------------------------------------------------------------ the common check driver
+NOTE = ('Trusted: Coq kernel; SC interleaving of the atomic accesses (memory orders not modelled); the pool abstracted to a bag of packaged tasks with an arbitrary '
+        'dequeue order (C01 is the pool\'s theorem), its workRemaining_/numThreads_/poolLoadFactor_ reads fused with the preceding hooked access; harness/vsched.h; '
+        'tools/gen_taskset.py + clang AST for the decision trees (float factor hand-modelled as prim_fscale). No axioms.')
+ASSUME = ['sequentially consistent interleaving of the atomic accesses of TaskSetBase / TaskSet / ConcurrentTaskSet (one step per DISPENSO_VERIF_POINT); compare_exchange_strong modelled exactly',
+          'the thread pool is abstract: a bag of packaged tasks, each dequeued at most once, any order (C01); numThreads_ and poolLoadFactor_ constant during a run (resize is C03)',
+          'lockstep runs use a ThreadPool(0) whose numThreads_/poolLoadFactor_/workRemaining_ are set through private access, enrolled harness threads play the workers; numRings_ = 0 there (ring fast path of scheduleBulk covered by the model and the proofs only)',
+          'futures / continuations bound to a task set are not operations of the model']
+
+
+def prove_and_build(ctx, pid):
+    rep = dv.gen(['taskset'])
+    errs = rep.get('taskset', rep.get('_crash', ['translator crashed']))
+    if errs:
+        ctx.broken.append('translator T(taskset): ' + '; '.join(errs)[:400])
+    ctx.cov['translated_functions'] = 21 - len(errs)
+    ctx.prove(tie_files=['GenTie/TaskSetGenTie.v'], models=['Model/TaskSetCheck.v', 'Model/%sCheck.v' % pid])
+    exe = dv.build_harness('h_taskset', ['h_taskset.cpp'])
+    ctx.phase('build')
+    return exe
+
+
+def lockstep_phase(ctx, exe, judge, flavours, n, witnesses=(), on_verdict=None, what='property'):
+    """generic lockstep phase; on_verdict(v, c, p, o) handles verdicts 2 and 4"""
+    r = ctx.rng
+    cases = list(witnesses) + [gen_case(r, flavours[i % len(flavours)]) for i in range(n)]
+    res = run_lockstep(ctx, exe, cases, judge)
+    if res is None:
+        ctx.broken.append('correspondence L: the model no longer evaluates (see coq_eval_errors)')
+        return []
+    hist = {}
+    distinct = set()
+    for c, p, o, v in res:
+        hist[v] = hist.get(v, 0) + 1
+        if len(p['steps']) > len(c['threads']) + 3:
+            distinct.add(o.split('| status')[0])
+        if v in (2, 4):
+            on_verdict(v, c, p, o)
+        elif v == 1:
+            ctx.broken.append('correspondence L: real trace differs from the model on ' + case_line(c)[:300] + ' -> ' + o[:300])
+    ctx.cov['evaluations'] += len(cases)
+    ctx.cov['distinct_nontrivial'] += len(distinct)
+    ctx.cov['traces_validated_against_impl'] += hist.get(0, 0) + hist.get(4, 0)
+    ctx.cov['lockstep_verdicts'] = {'agree': hist.get(0, 0), 'differ_property_holds': hist.get(1, 0), 'property_fails': hist.get(2, 0), 'fails_in_known_domain': hist.get(4, 0)}
+    ctx.cov['lockstep_status'] = {k: sum(1 for _, p, _, _ in res if p['status'] == v) for k, v in (('done', 0), ('deadlock', 1), ('budget', 2))}
+    ctx.cov['lockstep_steps_total'] = sum(len(p['steps']) for _, p, _, _ in res)
+    ctx.cov['rule'] = ('lockstep: random programs (2-4 enrolled threads: submitters / waiters / cancellers / workers calling pool.tryExecuteNext(); 1-3 task sets TaskSet / '
+                       'ConcurrentTaskSet kLightweight / kHeavy with parent-child cascades; schedule, ForceQueuingTag, scheduleBulk, wait, tryWait, cancel, throwing and nested bodies; '
+                       'numThreads_ 0-3, poolLoadFactor_ and workRemaining_ around the decision thresholds, inline depth 0 or 32) x random / bursty schedules under vsched, one fork per case; '
+                       'compared: step trace (site, set), per-thread logs with clock stamps, final counters/flags/guards, workRemaining_, queue size; '
+                       'non-trivial = more steps than threads + 3; distinct = distinct (trace, log) strings')
+    if res:
+        ctx.sample({'case': case_line(res[min(1, len(res) - 1)][0])[:300], 'impl': res[min(1, len(res) - 1)][2][:400]})
+    ctx.phase('lockstep')
+    return res
+
+
+def decision_phase(ctx, exe, judge, n, witnesses=(), on_verdict=None):
+    r = ctx.rng
+    ds = list(witnesses) + [gen_dcase(r, 'known' if i % 17 == 5 else None) for i in range(n)]
+    res = run_decisions(ctx, exe, ds, judge)
+    if res is None:
+        ctx.broken.append('correspondence D: the decision judge no longer evaluates')
+        return []
+    hist = {}
+    for d, v, o, x in res:
+        hist[x] = hist.get(x, 0) + 1
+        if x in (2, 4):
+            on_verdict(x, d, v, o)
+        elif x == 1:
+            ctx.broken.append('correspondence D: decision of the real code differs from the regenerated decision function on ' + d_line(d) + ' -> ' + o[:200])
+    ctx.cov['evaluations'] += len(ds)
+    ctx.cov['distinct_nontrivial'] += len(set(o for _, _, o, _ in res))
+    ctx.cov['decision_verdicts'] = {'agree': hist.get(0, 0), 'differ': hist.get(1, 0), 'property_fails': hist.get(2, 0), 'fails_in_known_domain': hist.get(4, 0)}
+    ctx.cov['decision_rule'] = ('D: real pool with 0-3 threads, load forced by parking blocker tasks (force-queued tasks spinning on a flag) and pre-queued set tasks; every overload '
+                                '(TaskSet / ConcurrentTaskSet light+heavy / ThreadPool; plain, skipRecheck, ForceQueuingTag, bulk ForceQueuingTag; caller external or on a pool thread; '
+                                'inline depth 0/32; poolRecursiveLoadFactor 1.0/1.5/3.0; cancelled or not); inputs read on the real objects right before the call; observation = functor ran on '
+                                'the caller during the call (raw vs wrapped via the outstanding count it saw) / queued / never; compared with gen_* of Gen/GenTaskSet.v')
+    if res:
+        ctx.sample({'case': d_line(res[0][0]), 'impl': res[0][2]})
+    ctx.phase('decisions')
+    return res
